@@ -85,6 +85,8 @@ func mixSeed(seed uint64, profile string, idx int) uint64 {
 func RunOne(t *testing.T, p *Profile, runSeed uint64, w *World, replay []Decision, useTrace bool, wantLog bool) *RunResult {
 	res := &RunResult{RunSeed: runSeed}
 	t0 := time.Now()
+	orig := w
+	w = cloneWorld(w) // bodies may adjust the configuration between phases; the caller's copy is what a replay file records
 	synctest.Test(t, func(t *testing.T) {
 		s := NewSim(runSeed, w)
 		s.logOn = wantLog || os.Getenv("VERIF_LOG") != ""
@@ -136,7 +138,7 @@ func RunOne(t *testing.T, p *Profile, runSeed uint64, w *World, replay []Decisio
 		res.StateHashes = res.StateHashes[:64]
 	}
 	h := sha256.New()
-	h.Write(w.JSON())
+	h.Write(orig.JSON())
 	for _, x := range res.StateHashes {
 		fmt.Fprintf(h, "%x,", x)
 	}
